@@ -4,6 +4,7 @@ use crate::{
     Filename,
 };
 use std::borrow::Cow;
+use std::cell::Cell;
 use std::collections::HashMap;
 use std::path::Path;
 
@@ -75,6 +76,55 @@ struct TypeSet {
     structs: HashMap<String, A2mlTypeSpec>,
     taggedstructs: HashMap<String, A2mlTypeSpec>,
     taggedunions: HashMap<String, A2mlTypeSpec>,
+    /// nesting depth of the type that is currently being parsed
+    nesting: Cell<usize>,
+}
+
+/// Limit for the nesting depth of A2ML types, including the depth of referenced named types.
+/// The types are processed recursively; without a limit (damaged) input could exhaust the stack.
+const MAX_A2ML_NESTING: usize = 100;
+
+impl TypeSet {
+    // called before a named type is copied: check the nesting limit
+    fn check_reference(&self, name: &str, typespec: &A2mlTypeSpec) -> Result<(), String> {
+        let (_, depth) = typespec.size_and_depth();
+        if self.nesting.get() + depth > MAX_A2ML_NESTING {
+            return Err(format!(
+                "the reference to type {name} is nested too deeply"
+            ));
+        }
+        Ok(())
+    }
+}
+
+impl A2mlTypeSpec {
+    // number of nodes and nesting depth of a type. Each type which is stored in the TypeSet
+    // is known to be nested less than MAX_A2ML_NESTING levels deep, so the recursion is limited
+    fn size_and_depth(&self) -> (usize, usize) {
+        match self {
+            A2mlTypeSpec::Array(item, _) | A2mlTypeSpec::Sequence(item) => {
+                let (size, depth) = item.size_and_depth();
+                (size + 1, depth + 1)
+            }
+            A2mlTypeSpec::Struct(items) => {
+                let mut result = (1, 1);
+                for item in items {
+                    let (size, depth) = item.size_and_depth();
+                    result = (result.0 + size, result.1.max(depth + 1));
+                }
+                result
+            }
+            A2mlTypeSpec::TaggedStruct(items) | A2mlTypeSpec::TaggedUnion(items) => {
+                let mut result = (1, 1);
+                for tagged_item in items.values() {
+                    let (size, depth) = tagged_item.item.size_and_depth();
+                    result = (result.0 + size, result.1.max(depth + 1));
+                }
+                result
+            }
+            _ => (1, 1),
+        }
+    }
 }
 
 type A2mlTokenIter<'a> = std::iter::Peekable<std::slice::Iter<'a, TokenType>>;
@@ -434,6 +484,7 @@ pub(crate) fn parse_a2ml(
         structs: HashMap::<String, A2mlTypeSpec>::new(),
         taggedstructs: HashMap::<String, A2mlTypeSpec>::new(),
         taggedunions: HashMap::<String, A2mlTypeSpec>::new(),
+        nesting: Cell::new(0),
     };
 
     // at the top level the applicable grammar rule is
@@ -514,6 +565,21 @@ fn parse_aml_type(
     types: &TypeSet,
     tok_start: &TokenType,
 ) -> Result<(Option<String>, A2mlTypeSpec), String> {
+    let nesting = types.nesting.get();
+    if nesting >= MAX_A2ML_NESTING {
+        return Err(String::from("the types are nested too deeply"));
+    }
+    types.nesting.set(nesting + 1);
+    let result = parse_aml_type_inner(tok_iter, types, tok_start);
+    types.nesting.set(nesting);
+    result
+}
+
+fn parse_aml_type_inner(
+    tok_iter: &mut A2mlTokenIter,
+    types: &TypeSet,
+    tok_start: &TokenType,
+) -> Result<(Option<String>, A2mlTypeSpec), String> {
     match tok_start {
         TokenType::Char => Ok((None, A2mlTypeSpec::Char)),
         TokenType::Int => Ok((None, A2mlTypeSpec::Int)),
@@ -557,7 +623,8 @@ fn parse_aml_type_enum(
         _ => {
             // no group with content follows, must be a reference to an existing type
             if let Some(name) = name {
-                if let Some(A2mlTypeSpec::Enum(items)) = types.enums.get(&name) {
+                if let Some(typespec @ A2mlTypeSpec::Enum(items)) = types.enums.get(&name) {
+                    types.check_reference(&name, typespec)?;
                     return Ok((Some(name), A2mlTypeSpec::Enum(items.clone())));
                 } else {
                     return Err(format!("enum {name} was referenced but not defined"));
@@ -620,7 +687,8 @@ fn parse_aml_type_struct(
         _ => {
             // no group with content follows, must be a reference to an existing type
             if let Some(name) = name {
-                if let Some(A2mlTypeSpec::Struct(structitems)) = types.structs.get(&name) {
+                if let Some(typespec @ A2mlTypeSpec::Struct(structitems)) = types.structs.get(&name) {
+                    types.check_reference(&name, typespec)?;
                     return Ok((Some(name), A2mlTypeSpec::Struct(structitems.clone())));
                 } else {
                     return Err(format!("struct {name} was referenced but not defined"));
@@ -670,7 +738,8 @@ fn parse_aml_type_taggedstruct(
         _ => {
             // no group with content follows, must be a reference to an existing type
             if let Some(name) = name {
-                if let Some(A2mlTypeSpec::TaggedStruct(tsitems)) = types.taggedstructs.get(&name) {
+                if let Some(typespec @ A2mlTypeSpec::TaggedStruct(tsitems)) = types.taggedstructs.get(&name) {
+                    types.check_reference(&name, typespec)?;
                     return Ok((Some(name), A2mlTypeSpec::TaggedStruct(tsitems.clone())));
                 } else {
                     return Err(format!(
@@ -719,7 +788,8 @@ fn parse_aml_type_taggedunion(
         _ => {
             // no group with content follows, must be a reference to an existing type
             if let Some(name) = name {
-                if let Some(A2mlTypeSpec::TaggedUnion(tsitems)) = types.taggedunions.get(&name) {
+                if let Some(typespec @ A2mlTypeSpec::TaggedUnion(tsitems)) = types.taggedunions.get(&name) {
+                    types.check_reference(&name, typespec)?;
                     return Ok((Some(name), A2mlTypeSpec::TaggedUnion(tsitems.clone())));
                 } else {
                     return Err(format!("taggedunion {name} was referenced but not defined"));
@@ -833,7 +903,16 @@ fn parse_aml_member(tok_iter: &mut A2mlTokenIter, types: &TypeSet) -> Result<A2m
     let tok_start = nexttoken(tok_iter)?;
     let (_, mut base_type) = parse_aml_type(tok_iter, types, tok_start)?;
 
+    // each array dimension is one more level of nesting around the base type
+    let mut array_nesting = 0;
     while let Some(TokenType::OpenSquareBracket) = tok_iter.peek() {
+        if array_nesting == 0 {
+            array_nesting = types.nesting.get() + base_type.size_and_depth().1;
+        }
+        array_nesting += 1;
+        if array_nesting > MAX_A2ML_NESTING {
+            return Err(String::from("the array has too many dimensions"));
+        }
         /* get the array dim */
         require_token_type(tok_iter, &TokenType::OpenSquareBracket)?;
         let dim = require_constant(tok_iter)?;
